@@ -45,19 +45,42 @@ func sortedFns(m map[*ssa.Function]bool) []*ssa.Function {
 	return out
 }
 
-// lockProtected: the instruction is dominated by a call to (*sync.Mutex).Lock / (*sync.RWMutex).Lock|RLock in the
-// same function, or the function is a closure passed to (*sync.Once).Do.
-func lockProtected(in ssa.Instruction) bool {
-	fn := in.Parent()
-	prot := false
+// lockSites lists, per function, the sync Lock/RLock calls whose mutex is released only by a deferred Unlock (or never),
+// i.e. calls after which the mutex is held until the function returns.
+func heldLocks(fn *ssa.Function) []ssa.Instruction {
+	var locks []ssa.Instruction
+	explicitUnlock := false
 	instrsOf(fn, func(x ssa.Instruction) {
-		if callee := staticCallee(x); callee != nil && callee.Pkg != nil && callee.Pkg.Pkg.Path() == "sync" &&
-			(callee.Name() == "Lock" || callee.Name() == "RLock") && instrDominates(x, in) {
-			prot = true
+		callee := staticCallee(x)
+		if callee == nil || callee.Pkg == nil || callee.Pkg.Pkg.Path() != "sync" {
+			return
+		}
+		switch callee.Name() {
+		case "Lock", "RLock":
+			if _, isDefer := x.(*ssa.Defer); !isDefer {
+				locks = append(locks, x)
+			}
+		case "Unlock", "RUnlock":
+			if _, isDefer := x.(*ssa.Defer); !isDefer {
+				explicitUnlock = true
+			}
 		}
 	})
-	if prot {
-		return true
+	if explicitUnlock {
+		return nil // a non-deferred Unlock: the held region is not the rest of the function; not handled, treated as unprotected
+	}
+	return locks
+}
+
+// lockProtected: the instruction is dominated by a sync Lock that is held to the end of its function; or its function is a
+// closure passed to (*sync.Once).Do; or (interprocedural) its function is reachable from the roots only through a function F in
+// which such a Lock dominates every call that can reach it.
+func (c *Ctx) lockProtected(in ssa.Instruction, roots []*ssa.Function) bool {
+	fn := in.Parent()
+	for _, l := range heldLocks(fn) {
+		if instrDominates(l, in) {
+			return true
+		}
 	}
 	if fn.Parent() != nil { // anonymous function: is it the argument of Once.Do?
 		for _, ref := range fnReferrers(fn) {
@@ -68,6 +91,39 @@ func lockProtected(in ssa.Instruction) bool {
 					}
 				}
 			}
+		}
+	}
+	// interprocedural: some F holds a lock around every call that reaches fn, and fn is reachable only through F
+	for F := range c.Reachable(roots...) {
+		if F == fn || !c.isRepoFn(F) {
+			continue
+		}
+		locks := heldLocks(F)
+		if len(locks) == 0 || !c.Reachable(F)[fn] || !c.onlyThrough(roots, F, fn) {
+			continue
+		}
+		all := true
+		instrsOf(F, func(x ssa.Instruction) {
+			call, ok := x.(ssa.CallInstruction)
+			if !ok {
+				return
+			}
+			for _, callee := range c.calleesOf(call) {
+				if callee == fn || c.Reachable(callee)[fn] {
+					dominated := false
+					for _, l := range locks {
+						if instrDominates(l, x) {
+							dominated = true
+						}
+					}
+					if !dominated {
+						all = false
+					}
+				}
+			}
+		})
+		if all {
+			return true
 		}
 	}
 	return false
@@ -171,6 +227,10 @@ func ruleGlobals(c *Ctx, rule string, roots []*ssa.Function, rootDesc string) {
 	for _, g := range globals {
 		ob := r.Ob(rule, "global "+shortName(g.Pkg.Pkg.Path())+"."+g.Name(), c.pos(g.Pos()))
 		as := acc[g]
+		if declaredIn(deref(g.Type()), "sync", "sync/atomic") {
+			ob.OK("synchronisation object of package sync: its methods are the synchronisation")
+			continue
+		}
 		written := false
 		for _, a := range as {
 			if a.write {
@@ -183,12 +243,12 @@ func ruleGlobals(c *Ctx, rule string, roots []*ssa.Function, rootDesc string) {
 		}
 		var unprot []string
 		for _, a := range as {
-			if !lockProtected(a.in) {
+			if !c.lockProtected(a.in, roots) {
 				unprot = append(unprot, fmt.Sprintf("%s in %s [%s]", a.how, fnName(a.in.Parent()), c.pos(a.in.Pos())))
 			}
 		}
 		if len(unprot) == 0 {
-			ob.OKnt("written, but every reachable access is dominated by a sync Lock or runs inside sync.Once.Do")
+			ob.OKnt(fmt.Sprintf("written, but each of the %d reachable accesses is dominated by a held sync Lock (in its own function, or in the only function through which it is reachable) or runs inside sync.Once.Do", len(as)))
 		} else {
 			ob.Bad("package-level variable accessed without synchronisation from code reachable from " + rootDesc + ": " + strings.Join(unprot, "; "))
 		}
